@@ -372,9 +372,9 @@ fn drive<F, O: PartialEq + Debug>(
     let check_ok = |c: &mut Case, f: &F, what: &str, ctxs: &str| -> u64 {
         let mut bad = 0u64;
         let mut first = String::new();
-        if len(f) != n {
+        let len_bad = len(f) != n;
+        if len_bad {
             first.push_str(&format!(" len() = {} for {} keys;", len(f), n));
-            bad += 1;
         }
         for i in 0..n {
             let got = get(f, i);
@@ -387,7 +387,7 @@ fn drive<F, O: PartialEq + Debug>(
             }
         }
         c.tick(n as u64 + 1);
-        if bad > 0 && !what.is_empty() {
+        if (bad > 0 || len_bad) && !what.is_empty() {
             c.fail(op, what, "", &format!("Ok(f) with {} wrong answers:{} {}", bad, first, ctxs));
         }
         bad
